@@ -79,6 +79,7 @@ def run_check(mid, spec, prop, tier, seed):
     env = dict(os.environ)
     env['VERIF_REPO'] = os.path.join(SCRATCH, mid)
     env['VERIF_SEED'] = str(seed)
+    env['VERIF_REPLAY_DIR'] = os.path.join(SCRATCH, mid, 'replays')
     env['VERIF_JOBS'] = env.get('VERIF_MUT_JOBS', '6')
     t0 = time.time()
     p = subprocess.run(
@@ -106,6 +107,11 @@ def do_one(mid, spec, props, tier, seed):
         for prop in props:
             out.append(run_check(mid, spec, prop, tier, seed))
     finally:
+        keep = os.environ.get('MUT_KEEP_REPLAYS')
+        rdir = os.path.join(SCRATCH, mid, 'replays')
+        if keep and os.path.isdir(rdir):
+            shutil.copytree(rdir, os.path.join(keep, mid),
+                            dirs_exist_ok=True)
         shutil.rmtree(os.path.join(SCRATCH, mid), ignore_errors=True)
     return out
 
